@@ -104,7 +104,7 @@ EXPORT errno_t _strlastsame_s_chk(const char *dest, rsize_t dmax,
      * find the last offset
      */
     found = false;
-    while (*dest && *src && dmax) {
+    while (dmax && *dest && *src) {
 
         if (*dest == *src) {
             found = true;
